@@ -574,6 +574,40 @@ def mkelem(v, form):
     return pyx12.segment.Element(v)
 
 
+def real_tree(node, call, reported, what, desc):
+    """the same call against the REAL error handler (open ISA/GS/ST, the node's segment added): every element error the
+    recording handler saw must be found under the segment in the error tree, code for code"""
+    import collections
+    import pyx12.error_handler, pyx12.segment
+    from mc import c14, ref
+    segn = node
+    while segn is not None and not segn.is_segment():
+        segn = segn.parent
+    if segn is None:
+        return []
+    src = c14.FakeSrc()
+    errh = pyx12.error_handler.err_handler()
+    errh.add_isa_loop(pyx12.segment.Segment(ref.isa(), '~', '*', ':'), src)
+    errh.add_gs_loop(pyx12.segment.Segment('GS*HC*S*R*20040102*1200*1*X*004010X098A1~', '~', '*', ':'), src)
+    errh.add_st_loop(pyx12.segment.Segment('ST*837*0001~', '~', '*', ':'), src)
+    errh.add_ele(segn.get_child_node_by_idx(0))
+    errh.add_seg(segn, pyx12.segment.Segment(segn.id + '*X~', '~', '*', ':'), 2, 2, None)
+    try:
+        call(errh)
+    except Exception as e:
+        return [('C15|%s|real handler|raises %s@%s' % (what, type(e).__name__, core.where(e)), desc + ': against the real error handler raised %r' % (e,))]
+    got = collections.Counter()
+    for sn in errh.cur_st_node.children:
+        for en in sn.elements:
+            for e in en.errors:
+                got[e[0]] += 1
+    want = collections.Counter(c for (c, m, bv, r) in reported)
+    if got != want:
+        return [('C15|%s|real handler|%s' % (what, 'errors lost' if (want - got) else 'errors added'),
+                 desc + ': validation reported %r, the error tree under the segment holds %r' % (dict(want), dict(got)))]
+    return []
+
+
 def run_ele(node, ge, v, cs, icvn, ex, q, label, form='E'):
     """level E; returns (outcome label, [(key, msg)])"""
     from mc import impl
@@ -601,6 +635,8 @@ def run_ele(node, ge, v, cs, icvn, ex, q, label, form='E'):
         out.append((key, desc + ': expected %s, reported %s' % (show(exp), showset(got))))
     if bool(res) != (not errh.err_ele) or res is None:
         out.append(('C15|%s|result %r with %s' % (what, res, 'errors' if errh.err_ele else 'no error'), desc + ': result %r, errors %s' % (res, showset(got))))
+    if len(errh.err_ele) >= 2 and not out:
+        out += real_tree(node, (lambda h: node.is_valid(mkelem(v, form), h, [q]) if q else node.is_valid(mkelem(v, form), h)), errh.err_ele, what, desc)
     return '%s|%s' % (label, show(exp)), out
 
 
@@ -663,6 +699,8 @@ def run_comp(node, gc, vals, cs, icvn, ex, label):
     out = compare_groups(exp, by, kid_ids, 'composite', label, desc, kid_ids[0] if kid_ids and gc.usage != 'R' else None)
     if bool(res) != (not errh.err_ele) or res is None:
         out.append(('C15|composite|result %r with %s' % (res, 'errors' if errh.err_ele else 'no error'), desc + ': result %r, errors %r' % (res, [(c, r) for (c, m, v, r) in errh.err_ele])))
+    if len(errh.err_ele) >= 2 and not out:
+        out += real_tree(node, lambda h: node.is_valid(mkcomp(vals), h), errh.err_ele, 'composite', desc)
     own = exp.get('own') or exp.get('*')
     return '%s|own=%s' % (label.split('|')[0], show(own)), out
 
